@@ -137,8 +137,14 @@ func brief(v reflect.Value) string {
 	return s
 }
 
-// Ids collects every value of a field named IdField in the model.
-func Ids(a any) []string {
+// AllIds is Ids including the diagram-interchange elements.
+func AllIds(a any) []string { return ids(a, true) }
+
+// Ids collects every value of a field named IdField in the model (diagram
+// interchange elements excluded).
+func Ids(a any) []string { return ids(a, false) }
+
+func ids(a any, withDiagram bool) []string {
 	var out []string
 	seen := map[uintptr]bool{}
 	var rec func(v reflect.Value, depth int)
@@ -163,7 +169,7 @@ func Ids(a any) []string {
 				if !f.IsExported() {
 					continue
 				}
-				if f.Name == "DiagramField" {
+				if f.Name == "DiagramField" && !withDiagram {
 					continue // diagram interchange elements are outside the claimed model
 				}
 				if f.Name == "IdField" {
